@@ -1,0 +1,24 @@
+# SPDX-License-Identifier: MIT
+"""Optional tracing hooks for external verification tooling.
+
+The hooks are inactive unless the environment variable
+``ODXTOOLS_VERIF`` is set to ``1`` when odxtools is imported *and* a
+sink has been installed via :func:`set_sink`. They only report what
+happens, they never change the behavior of the library.
+"""
+import os
+from typing import Any, Callable, Optional
+
+ENABLED = os.environ.get("ODXTOOLS_VERIF") == "1"
+
+_sink: Optional[Callable[[str, dict], None]] = None
+
+
+def set_sink(sink: Optional[Callable[[str, dict], None]]) -> None:
+    global _sink
+    _sink = sink
+
+
+def emit(event: str, **fields: Any) -> None:
+    if _sink is not None:
+        _sink(event, fields)
